@@ -468,9 +468,12 @@ where
                     }
                 }
                 if let Ok(set) = self.input.streams().as_mut()
-                    && let Some((incoming, s)) = set.remove(&sid)
+                    && let Some((incoming, _)) = set.get(&sid)
                 {
+                    // validate first: a stream removed here is no longer reached by `on_conn_error`,
+                    // and an invalid RESET_STREAM is about to become a connection error
                     sync_fresh_data = incoming.recv_reset(reset)?;
+                    let (_, s) = set.remove(&sid).expect("looked up above");
                     s.shutdown_receive();
                     if s.is_terminated() {
                         self.stream_ids.remote.on_end_of_stream(reset.stream_id());
